@@ -123,6 +123,11 @@ class StoreModel(FsModel):
             if fn is None:
                 raise Unsupported("Range::check not found")
             return ex.call_fn(fn, [r] + list(args), "range", self_ty="Range")
+        if isinstance(r, Struct) and r.name == "Range" and name == "is_empty" and not a:      # core::ops::Range::is_empty: !(start < end)
+            st, en = deref(r.fields["start"]), deref(r.fields["end"])
+            st, en = (st.e if isinstance(st, Z) else st), (en.e if isinstance(en, Z) else en)
+            c = st >= en
+            return c if isinstance(c, bool) else Z(c)
         if isinstance(r, Z) and name == "min" and isinstance(a[0], Z):
             return Z(z3.If(r.e <= a[0].e, r.e, a[0].e))
         if isinstance(r, Z) and name == "numeric_cast":
@@ -225,7 +230,8 @@ def rfc_slice(kind, first, last, length, ln):
     if kind == "int":
         return z3.And(first < ln, first <= last), first, z3.If(last < ln - 1, last, ln - 1) + 1
     # suffix: the last `length` bytes; longer than the representation = all of it; zero length is unsatisfiable
-    # (a suffix of an EMPTY representation is left open: RFC 9110 would serve nothing, S3 answers 416 — callers exclude ln == 0)
+    # (a suffix of an EMPTY representation: RFC 9110 calls it satisfiable by the whole, empty, representation; no Content-Range can
+    #  describe it, so serving nothing or refusing are both accepted — see `empty_suffix_ok` at the call site; a panic is not)
     return length > 0, z3.If(length > ln, 0, ln - length), ln
 
 
@@ -259,6 +265,21 @@ def ranged_reads(prog):
         ex.notes.append(("stream", m.stream))
         return TupleV([out[0], out[1] if out[0] == "ret" else json.dumps(out[1])])
     m.root = body
+
+    # machine arithmetic: every `-` / `+` of get_object and Range::check is on u64.  The integers of this encoding are mathematical,
+    # so wrap-around is made a decision of its own: where a negative difference (or a sum above 2^64-1) is feasible under the path
+    # condition, one branch ends in the panic a debug build raises (a release build wraps: the answer is then wrong instead).
+    def u64_arith(ex_, op, l, r):
+        if op in ("-", "+") and (isinstance(l, Z) or isinstance(r, Z)):
+            a = l.e if isinstance(l, Z) else l
+            b = r.e if isinstance(r, Z) else r
+            if isinstance(a, Term) or isinstance(b, Term) or isinstance(a, bool) or isinstance(b, bool):
+                return NotImplemented
+            bad = (a < b) if op == "-" else (a + b > U64MAX)
+            if not isinstance(bad, bool) and ex_.decide(bad):
+                raise rsx.PanicSig("attempt to %s with overflow" % ("subtract" if op == "-" else "add"))
+        return NotImplemented
+    ex.binop_hook = u64_arith
     paths = ex.explore(ROOT, [], "s3")
     # what Range::parse can produce (C14): positions below 2^63, first <= last
     first, last, length, ln = m.ints.get("first"), m.ints.get("last"), m.ints.get("length"), m.ints.get("file_len")
@@ -273,7 +294,9 @@ def ranged_reads(prog):
         if not any(e[0] == "fs.open" for e in p.events) or any(vkey(a) == "NotFound" for e in p.events for a in e[1]):
             pass
         sat_, s, e_ = rfc_slice(kind, first, last, length, ln)
-        pre = z3.And(pre_all, ln > 0) if kind == "suffix" else pre_all
+        pre = pre_all
+        # suffix of an empty object: refusing (S3: 416) and serving nothing are both accepted, and no Content-Range end exists
+        empty_suffix = (ln == 0) if kind == "suffix" else z3.BoolVal(False)
         o, pay = outcome_of(p)
         sol = ex.solver
 
@@ -311,11 +334,13 @@ def ranged_reads(prog):
         if o == "panic":
             r, mod = ask(z3.BoolVal(True))
             if r == z3.sat:
-                findings.setdefault("range:panic:%s" % form, ("get_object panics: %s" % pay, wit(mod)))
+                w = wit(mod)
+                sub = ":empty-object" if w["len"] == 0 else ""
+                findings.setdefault("range:panic:%s%s" % (form, sub), ("get_object panics: %s" % pay, w))
             continue
         if o == "err":
             # refused: must be unsatisfiable per RFC
-            r, mod = ask(sat_)
+            r, mod = ask(z3.And(sat_, z3.Not(empty_suffix)))
             if r == z3.sat:
                 w = wit(mod)
                 sub = ":longer-than-object" if kind == "suffix" and w["suffix"] > w["len"] else ""
@@ -346,7 +371,7 @@ def ranged_reads(prog):
             else:
                 xs = [deref(x) for x in f.fields["args"].elems]
                 xs = [x.e if isinstance(x, Z) else x for x in xs]
-                checks += [("content-range-start", xs[0] == s), ("content-range-end", xs[1] == e_ - 1), ("content-range-size", xs[2] == ln)]
+                checks += [("content-range-start", xs[0] == s), ("content-range-end", z3.Or(empty_suffix, xs[1] == e_ - 1)), ("content-range-size", xs[2] == ln)]
         for nm, c in checks:
             r, mod = ask(z3.Not(c))
             if r == z3.sat:
